@@ -97,7 +97,46 @@ func obsBoard(z *board.ZobristTable, b *board.Board) string {
 }
 
 func init() {
-	registerEval("ztable", func(a []string) string { return "ok" })
+	registerEval("ztable", func(a []string) string {
+		// quality of the table as recovered through the exported Hash (C07: positions differing in one component hash
+		// differently): the separating keys must be non-zero and pairwise distinct
+		vals := make([]uint64, 0, len(a))
+		for _, x := range a[1:] {
+			v, _ := strconv.ParseUint(x, 16, 64)
+			vals = append(vals, v)
+		}
+		if len(vals) != 896+16+64+1 {
+			return "bad-ztable"
+		}
+		var keys []uint64
+		for i := 0; i < 896; i++ {
+			if (i/64)%7 != 0 {
+				keys = append(keys, vals[i])
+			}
+		}
+		for i := 1; i < 16; i++ {
+			keys = append(keys, vals[896+i]^vals[896])
+		}
+		for i := 0; i < 8; i++ {
+			keys = append(keys, vals[912+16+i])
+		}
+		for i := 0; i < 8; i++ {
+			keys = append(keys, vals[912+40+i])
+		}
+		keys = append(keys, vals[976])
+		zero, dup := 0, 0
+		seen := map[uint64]int{}
+		for _, k := range keys {
+			if k == 0 {
+				zero++
+			}
+			seen[k]++
+		}
+		for _, n := range seen {
+			dup += n - 1
+		}
+		return fmt.Sprintf("ok keys=%d dup=%d zero=%d", len(keys), dup, zero)
+	})
 	registerEval("game", func(a []string) string {
 		seed, _ := strconv.ParseInt(a[0], 10, 64)
 		z := zobrist(seed)
